@@ -196,6 +196,11 @@ class LoopCheck(Check):
         env.run()
         if env.stopped:
             raise core.PathCut()
+        # the second run's evidence sums the steps of THIS run only
+        k_run = len(env.kernel_inputs) - (1 if cfg.get("n_final") else 0)
+        hist = env.sampler.history
+        if "C08" in self.props:
+            ctx.prove(len(hist.log_norm_ratio) == k_run and len(hist.log_norm_ratio_var) == k_run, "c08/steps_of_this_run_only", detail={"recorded": len(hist.log_norm_ratio), "iterations_of_this_run": k_run})
         loop_checks.check_run(ctx, env, self.props - {"C17"}, label_suffix="@second_run")
         if "C17" in self.props:
             ctx.prove(env.sampler.n_likelihood_evaluations == env.target.n_points, "c17/count@second_run")
